@@ -229,6 +229,8 @@ struct FitOut {
     alt: Option<Vec<f64>>,
     single: Option<Vec<f64>>,
     tall: Option<Vec<f64>>,
+    /// predict on the standard rows in reverse order (op 5)
+    rev: Option<Vec<f64>>,
     /// predict on the many-row matrix
     many: Option<Vec<f64>>,
     /// predict(training rows + queries) / predict_oob(training rows) of the restored forest
@@ -277,7 +279,7 @@ fn fit_once_t<T: Elem, M: Mx<T>>(case: &Case, ambient: &Option<TapeSpec>, layout
     let _plan = StdPlanGuard::install(case.std_fault);
     rand::sim::take_std_faults_fired();
     let p = &case.params;
-    let mut out = FitOut { bytes: vec![], pred: vec![], oob: None, alt: None, single: None, tall: None, many: None, restored: None, restore_err: None, bags: vec![], repeat_mismatch: None, calls: 0, words_consumed: None, draw_faults: 0, thr: None, value: Value::Null, err: None };
+    let mut out = FitOut { bytes: vec![], pred: vec![], oob: None, alt: None, single: None, tall: None, rev: None, many: None, restored: None, restore_err: None, bags: vec![], repeat_mismatch: None, calls: 0, words_consumed: None, draw_faults: 0, thr: None, value: Value::Null, err: None };
     let mut model_box: Option<Box<dyn std::any::Any + Send>> = None;
     let bag_log: std::rc::Rc<std::cell::RefCell<Vec<Vec<usize>>>> = Default::default();
     {
@@ -595,13 +597,19 @@ fn run_ops<T: RealNumber, M: Mx<T>>(case: &Case, layout: u8, out: &mut FitOut, x
             1 => guarded(|| predict_oob(x)),
             2 => guarded(|| predict(&alt)),
             3 => guarded(|| predict(&M::build(&case.x[0..1], layout))),
+            5 => {
+                let mut t = case.x.clone();
+                t.extend(queries_of(case));
+                t.reverse();
+                guarded(|| predict(&M::build(&t, layout)))
+            }
             _ => {
                 let mut t = case.x.clone();
                 t.extend(case.x.iter().cloned());
                 guarded(|| predict(&M::build(&t, layout)))
             }
         };
-        let name = ["predict", "predict_oob", "predict(other matrix of the training shape)", "predict(single-row matrix)", "predict(training rows stacked twice)"][(*op).min(4) as usize];
+        let name = ["predict", "predict_oob", "predict(other matrix of the training shape)", "predict(single-row matrix)", "predict(training rows stacked twice)", "predict(the same rows in reverse order)"][(*op).min(5) as usize];
         let v = match r {
             Ok(Ok(v)) => v,
             Ok(Err(e)) => {
@@ -624,6 +632,7 @@ fn run_ops<T: RealNumber, M: Mx<T>>(case: &Case, layout: u8, out: &mut FitOut, x
             1 => out.oob.clone(),
             2 => out.alt.clone(),
             3 => out.single.clone(),
+            5 => out.rev.clone(),
             _ => out.tall.clone(),
         };
         match first {
@@ -644,6 +653,7 @@ fn run_ops<T: RealNumber, M: Mx<T>>(case: &Case, layout: u8, out: &mut FitOut, x
                 1 => out.oob = Some(v),
                 2 => out.alt = Some(v),
                 3 => out.single = Some(v),
+                5 => out.rev = Some(v),
                 _ => out.tall = Some(v),
             },
         }
@@ -935,6 +945,14 @@ impl C06 {
         }
         if let Some(tl) = &a.tall {
             to_judge.extend(tl.iter().cloned().enumerate().map(|(i, v)| (v, i % n)));
+        }
+        if let Some(rv) = &a.rev {
+            if rv.len() != nq {
+                rep.fail("shape", "forest-predict", format!("{}: {} predictions for the {} standard rows in reverse order", ctx, rv.len(), nq));
+            } else {
+                to_judge.extend(rv.iter().cloned().enumerate().map(|(i, v)| (v, nq - 1 - i)));
+                rep.count("fault.same-rows-asked-again-in-another-order", 1);
+            }
         }
         if let Some(mv) = &a.many {
             let src = many_src(case);
@@ -1399,7 +1417,7 @@ fn gen_case(batch: &str, _index: u64, seed: u64) -> Case {
     let mut ops: Vec<u8> = vec![0];
     let extra = pr.usize_in(1, 5);
     for _ in 0..extra {
-        ops.push(pr.below(5) as u8);
+        ops.push(pr.below(6) as u8);
     }
     pr.shuffle(&mut ops);
     let (pollute, refit_same_thread, ctor) = (pr.chance(0.5), pr.chance(0.5), pr.below(6) as u8);
@@ -1436,10 +1454,18 @@ impl Property for C06 {
             Batch { name: "twins-extreme", count: if q { 5_000 } else { 250_000 }, simulated: true, exhaustive: false, note: "twin B's ambient RNG serves extreme words" },
             Batch { name: "twins-draw-faults", count: if q { 6_000 } else { 300_000 }, simulated: true, exhaustive: false, note: "the forest's own seeded generator serves boundary values (0, 1, MAX, MAX-1, 2^k-1) at a seeded subset of its draws, identically for every twin: bootstrap samples and sub-seeds a ChaCha stream reaches with negligible probability" },
             Batch { name: "twins-sort-adversary", count: if q { 1_500 } else { 60_000 }, simulated: true, exhaustive: false, note: "adversarial comparator party: the tree fits' own index sort (real code, driven through its generic element type) is led through its worst case by lazily decided comparisons (McIlroy's adversary); the resulting order becomes a feature column of the twins" },
+            Batch { name: "many-rows-huge", count: if q { 3 } else { 12 }, simulated: true, exhaustive: false, note: "one predict call with 3e5..1.1e6 rows (thorough: up to 4.2e6): block sizes of 2^18..2^22 elements; a cap beyond the largest call made here stays invisible" },
             Batch { name: "twins-none", count: if q { 5_000 } else { 250_000 }, simulated: true, exhaustive: false, note: "no simulator source installed for one or both twins (real OS-seeded ThreadRng)" },
         ]
     }
     fn gen(&self, batch: &str, index: u64, seed: u64) -> Case {
+        if batch == "many-rows-huge" {
+            let mut c = gen_case(if index % 2 == 0 { "twins-clf" } else { "twins-reg" }, index, seed);
+            c.many = [300_000usize, 600_000, 1_100_000, 4_200_000][(index % 4) as usize];
+            c.refit_same_thread = false;
+            c.kind = format!("{}, many-rows-huge", c.kind);
+            return c;
+        }
         gen_case(batch, index, seed)
     }
     fn run(&self, case: &Case) -> Report {
